@@ -7,6 +7,8 @@ from vlib.runner import Part, Violation, ddmin_list
 
 PROPERTY = "C01"
 LEVEL = "fault_enumeration"
+# parts repeated in a child interpreter started with -O and with warnings turned into errors (vlib/runner.py, MODES)
+MODE_PARTS = {"OW": ['rejected-batches', 'deserialiser-failures', 'single-fault-sweep']}
 RULE = ("systematic sweep: for every public data operation (single- and multi-key, noreply unset/True/False) x client "
         "stack (Client, PooledClient max 1, PooledClient max 2, HashClient, pooled HashClient) x ignore_exc off/on x "
         "cold/warm connection, a fault-free dry run lists every socket event the operation performs and every reply "
